@@ -15,6 +15,8 @@ EXTRACT ("C15Line", l_cpp, "Line3.closestPointToPoint", { INL (l); IN (Vec3, p);
 EXTRACT ("C15Line", l_cpl, "Line3.closestPointToLine", { INL (l1); INL (l2); c.out (l1.closestPointTo (l2)); })
 EXTRACT ("C15Line", l_dp, "Line3.distanceToPoint", { INL (l); IN (Vec3, p); c.outS (l.distanceTo (p)); })
 EXTRACT ("C15Line", l_dl, "Line3.distanceToLine", { INL (l1); INL (l2); c.outS (l1.distanceTo (l2)); })
+// operator* (Line3, Matrix44) (ImathLine.h): the line through the images of pos and pos + dir
+EXTRACT ("C15Line", l_mulM44, "Line3.mulM44", { INL (l); IN (Matrix44, m); c.out (l * m); })
 
 //---------------------------------------------------------------- ImathLineAlgo.h
 EXTRACT ("C15Algo", la_closestPoints, "LineAlgo.closestPoints", {
